@@ -1088,8 +1088,6 @@ def oracle_c13(line, m, impl, model):
     for e in exp:
         if isinstance(e, str):
             if i >= len(out_lines) or out_lines[i] != e:
-                if m.get("first_line"):
-                    return ("known", "KF1 first-line block: indentation of the tag line is not tidied at the start of the file")
                 return f"expected line {e!r} at output line {i + 1}, got {out_lines[i] if i < len(out_lines) else None!r}"
             i += 1
         else:
@@ -1099,8 +1097,6 @@ def oracle_c13(line, m, impl, model):
                 cnt += 1
                 i += 1
             if cnt != keep:
-                if m.get("first_line"):
-                    return ("known", "KF1 first-line block: indentation of the tag line is not tidied at the start of the file")
                 return f"{cnt} blank lines remain where {keep} are expected"
     if i != len(out_lines):
         return "unexpected extra output lines"
@@ -1249,9 +1245,7 @@ def gen_c11(rng, tier):
         ex = "\n".join(exp) + ("\n" if fin else "")
         cid = f"u{i}"
         cases.append(G.dcase(cid, ds, de, src, cfg))
-        kc = None
-        if first and tu > 0:
-            kc = "KF1 first-line block: indentation of the tag line is not tidied at the start of the file"
+        kc = None   # (first-line blocks were known finding KF1 until the repairs F13/F14)
         meta[cid] = {"stream": "unwrap", "expect": ex, "known_class": kc, "why": "unwrap-block four-line removal and dedent"}
     for i in range(800 if tier == "quick" else 10000):
         ds, de = rng.choice(G.DELIMS)
@@ -1579,6 +1573,7 @@ def differential(P, pid, cases, meta, harness, driver, tag, oracle_only=False):
         model, _ = vlib.run_sharded(driver, cases, work, tag + ".model")
     stages = P["stages"]
     dis, fails, known = [], [], []
+    known_case = {}
     compared = 0
     nontrivial = set()
     by_line = {}
@@ -1608,6 +1603,7 @@ def differential(P, pid, cases, meta, harness, driver, tag, oracle_only=False):
             if isinstance(v, tuple) and v[0] == "known":
                 if v[1] not in known:
                     known.append(v[1])
+                    known_case[v[1]] = (line, m)
             else:
                 fails.append({"case": line, "meta": m, "why": v, "impl": {k: io.get(k, "")[:3000] for k in stages}})
         if P["nontrivial"](line, io):
@@ -1625,7 +1621,9 @@ def differential(P, pid, cases, meta, harness, driver, tag, oracle_only=False):
     listed = {k["class"] for k in known_findings() if k.get("status") == "open" and pid in k.get("properties", [])}
     unlisted = [k for k in known if not any(k.startswith(c) for c in listed)]
     for k in unlisted:
-        fails.append({"case": cases[0], "meta": {}, "why": "finding not listed in known_findings.json: " + k})
+        kl, km = known_case.get(k, (cases[0], {}))
+        km = {a: b for a, b in km.items() if a != "known_class"}
+        fails.append({"case": kl, "meta": km, "why": "finding not listed as open in known_findings.json: " + k})
     known = [k for k in known if k not in unlisted]
     samples = []
     for line in cases[:: max(1, len(cases) // 5)][:6]:
